@@ -12,307 +12,284 @@ Definition show_fres (r : fres) : string :=
   end.
 Definition check (rs : list rune) : string := digest (show_fres (format_res rs)).
 Definition full (rs : list rune) : string := show_fres (format_res rs).
-Eval vm_compute in ("<<<M1361>>>" ++ check (runes_of_ascii "options { // c1a
-  // c1b
-StringPrefixLenType =
-    // c3
-u8 // c4
-; ArrayPrefixLenType // c6a
-  // c6b
-= u32 // c8a
-  // c8b
-; // c9
-FixedStringPadFromLeft // c10
-=
-    // c11
-true // c12
-; FixedStringPadChar // c14
-= // c15a
-  // c15b
-' ' // c16a
-  // c16b
-; // c17a
-  // c17b
-} // c18a
-  // c18b
-packet // c19a
-  // c19b
-Leg
-    // c20
-{
-    // c21
-} // c22a
-  // c22b
-packet
-    // c23
-Heartbeat
-    // c24
-{ // c25a
-  // c25b
-zchar[ // c26
-6 // c27a
-  // c27b
-] msgKind ,
-    // c30
-@rightPad // c31
-(
-    // c32
-'0' // c33a
-  // c33b
-)
-    // c34
-char[ // c35a
-  // c35b
-3
-    // c36
-] Qty
-    // c38
-, // c39a
-  // c39b
-zchar[ // c40
-9 // c41a
-  // c41b
-] // c42a
-  // c42b
-Side2 // c43a
-  // c43b
-, // c44
-i8 // c45a
-  // c45b
-Acct
-    // c46
-, } // c48
-packet Logout // c50a
-  // c50b
-{ // c51
-int8 // c52
-x
-    // c53
-, // c54
-} packet
-    // c56
-Order { // c58a
-  // c58b
-char[] // c59a
-  // c59b
-Acct
-    // c60
-, // c61
-zchar[ // c62
-8 ] // c64
-count // c65a
-  // c65b
-,
-    // c66
-u32 // c67
-OrderId // c68a
-  // c68b
-, // c69
-uint8 // c70a
-  // c70b
-lastPx // c71
-, u16 clOrdID // c74
-, // c75a
-  // c75b
-zchar[ // c76
-7 ] Note
-    // c79
-, // c80a
-  // c80b
-} root // c82
-packet
-    // c83
-Reject
-    // c84
-{ // c85a
-  // c85b
-@leftPad (
-    // c87
-' '
-    // c88
-)
-    // c89
-char[ // c90a
-  // c90b
-8 // c91
-] // c92
-Side2 ,
-    // c94
-i8
-    // c95
-clOrdID // c96a
-  // c96b
-, // c97
-repeat // c98a
-  // c98b
-f32 // c99a
-  // c99b
-x // c100a
-  // c100b
-, // c101
-u32 lastPx // c103a
-  // c103b
-,
-    // c104
-match // c105a
-  // c105b
-lastPx // c106
-as Body // c108a
-  // c108b
-{
-    // c109
-[
-    // c110
-30 , // c112a
-  // c112b
-147 // c113a
-  // c113b
-]
-    // c114
-: // c115a
-  // c115b
-Heartbeat
-    // c116
-, 134 : Leg // c120
-,
-    // c121
-183
-    // c122
-:
-    // c123
-Logout , // c125
-40 // c126a
-  // c126b
-: Order // c128
-, } // c130
-, // c131
-u16 Ref // c133a
-  // c133b
-@calculatedFrom( // c134
-""CRC32""
-    // c135
-) , } // c138
-")).
-Eval vm_compute in ("<<<M1866>>>" ++ check (runes_of_ascii "// @lengthOf(
-packet A {
-    repeat rootA {
-        repeat o,
-        BodyLength i64_ `// not a comment`,
-        repeatCount @calculatedFrom(""it's""),
-    },
-    //x
-    //x
-    @tag(0)
-    falsey @lengthOf(BodyLength),
-    @leftPad()
+Eval vm_compute in ("<<<M1832>>>" ++ check (runes_of_ascii "packet Z9_ {
     @calculatedFrom(""1"")
-    @lengthOf(int)
-    match trueish as body {
+    match body as u8x {
+        [7] : u,
         [
-            007, 7, ""abc"", ""x y"", 00,
-            ""// no comment"", 255, 1
-        ] : body,
+            7, 00, ""a\""b"", """", ""\n"",
+            00
+        ] : charz,
+        1 : Packet,
+        """ ++ [28040; 24687]%N ++ runes_of_ascii """ : f32a,
+        00 : len,
     },
-    @lengthOf(Pad)
-    metadata @calculatedFrom(""it's""),
-    // `tick` ""quote"" 'q'
-    @leftPad()
-    @calculatedFrom(""" ++ [233]%N ++ runes_of_ascii "t" ++ [233]%N ++ runes_of_ascii """)
-    char falsey `" ++ [233]%N ++ runes_of_ascii "`,
-    char[007] metadata @lengthOf(chars),
-    @rightPad('0')
-    u8 roots @calculatedFrom(""packet""),
-    string_ MetaDataX,
-    @lengthOf(Z9_)
-    @leftPad('\x00')
-    /// triple
-    @rightPad(' ')
-    MetaDataX `two words`,
-    zchar[0] body `line1
-    line2`,
-}
-
-packet uint8x {
-    @rightPad('0')
-    //	t
-    char[] stringy,
-    MetaDataX Z9_,
-    i8 Logon,
-}
-
-root packet u {
-    int64 Z9_,
-    zchar[00] string_ `" ++ [28040; 24687; 31867; 22411]%N ++ runes_of_ascii "`,
+    @lengthOf(calculatedFrom)
+    MetaDataX,
+    Packet @lengthOf(int),
+    repeat char[7] calculatedFrom,
+    @calculatedFrom(""a\\"")
+    zchar[255] f32a @calculatedFrom(""" ++ [233]%N ++ runes_of_ascii "t" ++ [233]%N ++ runes_of_ascii """),
     @calculatedFrom(""a\""b"")
-    @tag(3)
-    @rightPad('0')
-    repeat u32 packetx `two words`,
-    char[42] string_,
-    repeat Header lengthOf,
-}
-
-options {
-}
-
-packet Header {
-    @rightPad()
-    metadata {
-        char[65535] o,
-        repeat x {
-            char[4294967296] options1,
+    char[7] i8i8 @calculatedFrom(""a\\"") `crlf
+    line`,
+    zchar[0123456789] x `line1
+    line2`,
+    @leftPad()
+    repeat u64 stringy,
+    @lengthOf(x)
+    repeat body {
+        //	t
+        Z9_ {
+            repeat asx,
+            repeat crc i64_,
+            repeat rootA {
+                repeat rootA MetaDataX `line1
+                line2`,
+                match i64_ as calculatedFrom {
+                    7 : x,
+                    [7] : stringy,
+                    ""1"" : i8i8,
+                    [
+                        ""1"", 42, """ ++ [233]%N ++ runes_of_ascii "t" ++ [233]%N ++ runes_of_ascii """, 10, 255,
+                        0, 10
+                    ] : u,
+                    ""x y"" : i8i8,
+                },
+                uint64 _x `
+                `,
+                char[0] i64_ @calculatedFrom(""CRC32""),
+            },
+            x_y_z {
+                char[] T,
+            },
         },
-        roots Header,
+        repeat u64 Foo `a\`,
+        uint8 uint8x,
+        match roots as chars {
+            1 : _x,
+            ""a\""b"" : uint8x,
+            42 : metadata,
+            // `tick` ""quote"" 'q'
+            [""\n"", 255] : zchar,
+            [""" ++ [233]%N ++ runes_of_ascii "t" ++ [233]%N ++ runes_of_ascii """, 3, 4294967296, 0123456789, ""x y""] : metadata,
+            [""it's"", ""// no comment""] : Z9_,
+        },
     },
-}")).
-Eval vm_compute in ("<<<M1792>>>" ++ check (runes_of_ascii "// trailing space 
-packet charz {
-    @calculatedFrom(""1"")
-    match x as tag {
-        [
-            7, 0, 65535, ""it's"", 0,
-            ""x y"", 255
-        ] : tag,
-        [
-            ""1"", 3, 007,
-            255, ""x y""
-        ] : pack,
-        [
-            """ ++ [233]%N ++ runes_of_ascii "t" ++ [233]%N ++ runes_of_ascii """, 7, 10, 3, 0,
-            ""a\""b""
-        ] : leftPad,
-        [65535, ""x y""] : chars,
-        [""\n"", 65535, ""a\\""] : A,
-        ""\n"" : lengthOf,
-    },
-    match string_ as i8i8 {
-        7 : msg_type,
-        // c
-        ""abc"" : tag,
-        ""a\""b"" : metadata,
-        255 : matchKey,
-        [
-            ""CRC32"", ""1"", 007, ""packet"", ""a\\"",
-            ""a\""b"", 007, 4294967296
-        ] : lengthOf,
-    },
-    uint16 pack,
-    string Pad @lengthOf(o) `say ""hi""`,
-    repeat i8 body,
+}// a // b
+
+MetaData rootA {
+    char[4294967296] msg_type,// @lengthOf(
+    char[] u128,
+    uint64 a1,
+    int8 crc,
+    Pad msg_type `doc`,
+}
+
+//	t
+/// triple
+packet x_y_z {
     @lengthOf(crc)
-    float64 body `// not a comment`,
-    repeat rootA {
-        int16 x_y_z `tab	here`,
-        falsey @calculatedFrom(""{,}""),
-        trueish @lengthOf(crc) `{ , }`,
+    match packetx as f32a {
+        0123456789 : A,
+        00 : u,
+        // @lengthOf(
     },
-    match Pad as Header {
-        4294967296 : Header,
-        ""\n"" : msg_type,
-        ""a	b"" : x_y_z,
-    },
-    //	t
-    Logon,
 }")).
+Eval vm_compute in ("<<<M313>>>" ++ check (runes_of_ascii "options { BodyLength = char[ 7] ;	}
+// c
+// @lengthOf(
+packet asx// " ++ [128512]%N ++ runes_of_ascii " emoji
+{ int16
+    x_y_z , @calculatedFrom(
+    """" ) @lengthOf(
+    /// triple
+    chars) //
+repeat repeatCount
+charz
+/// triple
+// " ++ [27880; 37322]%N ++ runes_of_ascii "
+, @leftPad ( ) i64_@calculatedFrom(
+""\" ++ [233]%N ++ runes_of_ascii """	) `// not a comment` , tag Z9_
+`two words` ,
+@lengthOf( asx
+)@calculatedFrom(
+""`tick`""
+    )match uint8x as
+matchKey
+    {0123456789
+// packet A { u8 x, }
+// a // b
+: u8x ,1 : zchar , } ,u128 @lengthOf( u128 // packet A { u8 x, }
+)// " ++ [128512]%N ++ runes_of_ascii " emoji
+, } MetaData	msg_type  {
+string
+BodyLength  `two words` , options1// " ++ [128512]%N ++ runes_of_ascii " emoji
+i64_ ,
+    }// " ++ [128512]%N ++ runes_of_ascii " emoji
+packet roots { u `` , @calculatedFrom( ""a	b"")match len as	msg_type{
+    // c
+    """ ++ [28040; 24687]%N ++ runes_of_ascii """
+:
+charz}, crc @calculatedFrom(
+// packet A { u8 x, }
+// packet A { u8 x, }
+""it's"" ) `a\`
+,@leftPad
+( '0' )@tag( 007	) zchar[// trailing space 
+3
+    // trailing space 
+    ] falsey ,  @calculatedFrom(// `tick` ""quote"" 'q'
+""\n""
+    )@calculatedFrom(""CRC32""// c
+)
+    // trailing space 
+    match
+    //x
+    Packet as // @lengthOf(
+stringy	{ 1:
+Pad
+, ""it's"" :f32a ,
+} , @leftPad (
+' '
+)
+    match // " ++ [27880; 37322]%N ++ runes_of_ascii "
+int as	a1 { [ 0123456789 ,255]
+    :
+    options1
+//x
+//x
+}
+    ,BodyLength
+    //
+    @calculatedFrom( """ ++ [28040; 24687]%N ++ runes_of_ascii """ ),
+float32
+    zchar
+@calculatedFrom( ""// no comment""
+)
+,	@tag( 10 ) zchar[
+    // packet A { u8 x, }
+    1  ] rootA , }
+")).
+Eval vm_compute in ("<<<M1695>>>" ++ check (runes_of_ascii "
+root packet  asx 
+{
+
+    leftPad{ u128@calculatedFrom(
+    ""1""  ) 
+, 	 //x
+	}
+,
+
+lengthOf// packet A { u8 x, }
+      @calculatedFrom(
+""" ++ [128512]%N ++ runes_of_ascii """ )  `a\` ,
+i64 	 // `tick` ""quote"" 'q'
+Packet
+
+@lengthOf( calculatedFrom )
+
+, @calculatedFrom(  """ ++ [233]%N ++ runes_of_ascii "t" ++ [233]%N ++ runes_of_ascii """
+
+    ) stringy a1
+
+`doc`  // `tick` ""quote"" 'q'
+	,
+
+    @rightPad
+	(
+
+    // a // b
+  )  
+      // c
+    a1
+`a\`
+,
+    char	Header
+@lengthOf(
+
+x  ) `say ""hi""`
+
+    , 
+uint8x
+    Z9_ `tab	here`  , }
+
+    options
+    {  calculatedFrom	// packet A { u8 x, }
+
+	=
+0
+}
+packet metadata  {@leftPad (
+
+'\x00')
+
+f32
+
+    pack 
+//	t
+
+  //
+,
+
+@tag(65535)
+
+    u32
+    uint8x @lengthOf(
+
+    repeatCount 
+) ``	,	MetaDataX {
+	repeat 
+options1
+,match
+
+matchKey
+
+as
+
+    len { 
+""" ++ [128512]%N ++ runes_of_ascii """:  u8x
+	,1
+    :zchar, /// triple
+	[
+""a\\""	, ""x y""]
+:charz
+
+    0 :  x_y_z
+    //
+	,
+[// trailing space 
+    4294967296// `tick` ""quote"" 'q'
+	  ]
+
+    : 
+asx
+,	[	/// triple
+    ""a\""b""
+	,
+
+    ""\n"" , ""\" ++ [233]%N ++ runes_of_ascii """
+,
+    10 
+]
+
+:  _x,
+    } 
+,uint8
+
+metadata 
+@lengthOf(
+float )
+
+    ,zchar[
+	255
+]i8i8
+	, }
+
+    , 
+} root	packet
+f32a{ }
+")).
 Eval vm_compute in ("<<<M1338>>>" ++ check (runes_of_ascii "options {
     FixedStringPadFromLeft = true;
     FixedStringPadChar = '0';
@@ -364,7 +341,7 @@ root packet Ack {
     u16 Ref @calculatedFrom(""CRC32""),
 }
 ")).
-Eval vm_compute in ("<<<M1368>>>" ++ check (runes_of_ascii "options {
+Eval vm_compute in ("<<<M1371>>>" ++ check (runes_of_ascii "options {
     FixedStringPadFromLeft = true;
     FixedStringPadChar = '0';
 }
@@ -409,492 +386,496 @@ root packet Order {
         13 : Ack,
         159 : Fill,
     },
-    u32 venue @calculatedFrom(""CRC32""),
+    u32 venue @calculatedFrom(""CR\
+C32""),
 }
 ")).
-Eval vm_compute in ("<<<M1117>>>" ++ check (runes_of_ascii "// top
-MetaData
-    // c0
-Packet
-    // c1
-{
-    // c2
+Eval vm_compute in ("<<<M1355>>>" ++ check (runes_of_ascii "options	{StringPrefixLenType 
+= 
+u16
+
+;ArrayPrefixLenType = u32
+;FixedStringPadFromLeft
+
+= true; 
+FixedStringPadChar 
+='0'
+	;  }  packet
+    Cancel { }	packet
+
+Party
+{  }packet Logon
+{ }
+    packet	Ack { 
 }
-    // c3
-packet
-    // c4
-charz
-    // c5
+    packet Logout	{
+
+    repeat InSym87{
+
+    InClordid94
 {
-    // c6
-Foo
-    // c7
-asx
-    // c8
-`it's`
-    // c9
+string clOrdID
+	,
+
+}  ,string
+
+Px ,	i16
+
+Qty,
+
+repeat
+	InCount71
+	{ repeat Cancel ,
+	uint16
+
+    Tail , char[ 2  ] x  ,
+repeat
+
+    string Ref,
+    }	,Cancel
+    ,},
+    }
+
+root
+	packet Order  {repeat
+
+    string
+
+    tag7
+
+    ,
+@leftPad
+
+    (
+
+' '
+	)
+    char[3
+] 
+Px
+,	u8
+
+    Qty ,  match Qty 
+as
+
+    Body
+    {
+[
+
+28 
+,62 ]
+    : Logon,148 : Ack , 88
+	:  Party ,
+
+184: Cancel ,
+    } , 
+u16
+
+    Note
+    @calculatedFrom(	""CRC32"") 
 ,
+	}")).
+Eval vm_compute in ("<<<M1120>>>" ++ check (runes_of_ascii "// top
+root
+    // c0
+packet
+    // c1
+_x
+    // c2
+{
+    // c3
+match
+    // c4
+Foo
+    // c5
+as
+    // c6
+Z9_
+    // c7
+{
+    // c8
+""a	b""
+    // c9
+:
     // c10
-@lengthOf(
+Pad
     // c11
-T
+,
     // c12
-)
+}
     // c13
-@calculatedFrom(
+,
     // c14
-""""
+repeat
     // c15
-)
+x
     // c16
-@calculatedFrom(
+`line1
+line2`
     // c17
-""x y""
+,
     // c18
-)
+@rightPad
     // c19
-zchar[
+(
     // c20
-007
+' '
     // c21
-]
-    // c22
-repeatCount
-    // c23
-@lengthOf(
-    // c24
-int
-    // c25
 )
+    // c22
+@calculatedFrom(
+    // c23
+""a\\""
+    // c24
+)
+    // c25
+metadata
     // c26
-`a\`
+MetaDataX
     // c27
 ,
     // c28
-i8
+@tag(
     // c29
-string_
+0
     // c30
-,
+)
     // c31
-repeat
+Logon
     // c32
-options1
+int
     // c33
-Pad
+``
     // c34
 ,
     // c35
 }
     // c36
-root
+options
     // c37
-packet
-    // c38
-Packet
-    // c39
 {
+    // c38
+T
+    // c39
+=
     // c40
-int8
+'\x00'
     // c41
-float
+}
     // c42
-`doc`
-    // c43
-,
-    // c44
-}
-    // c45
 ")).
-Eval vm_compute in ("<<<M1327>>>" ++ check (runes_of_ascii "// top
-packet
-    // c0
-Logon { // c2a
-  // c2b
-string // c3a
-  // c3b
-user
-    // c4
-, // c5a
-  // c5b
-} // c6a
-  // c6b
-root
-    // c7
-packet Frame // c9a
-  // c9b
-{ // c10
-u8
-    // c11
-K // c12
-,
-    // c13
-match // c14
-K // c15
-as // c16
-Body
-    // c17
-{
-    // c18
-1 :
-    // c20
-Logon // c21
-, // c22a
-  // c22b
-2 // c23
-: // c24a
-  // c24b
-Logout // c25a
-  // c25b
-,
-    // c26
-} // c27
-, // c28a
-  // c28b
-Tail , // c30a
-  // c30b
-} // c31a
-  // c31b
-packet
-    // c32
-Logout // c33a
-  // c33b
-{ // c34a
-  // c34b
-u16 // c35a
-  // c35b
-reason
-    // c36
-, }
-    // c38
-packet
-    // c39
-Tail
-    // c40
-{
-    // c41
-u32 crc
-    // c43
-, // c44
-} // c45a
-  // c45b
-")).
-Eval vm_compute in ("<<<M1894>>>" ++ check (runes_of_ascii "root packet lengthOf {
-    // a // b
-    match i64_ as options1 {
-        ""// no comment"" : f32a,
-        65535 : falsey,
-    },
-    @tag(0)
-    char[] body @lengthOf(lengthOf),
-    u64 string_ `it's`,
-    @lengthOf(string_)
-    crc {
-        repeat zchar[3] u,
-        pack `a\`,
-        char[] crc ``,
-    },
-    int16 metadata `line1
-        line2`,
-}
-
-root packet leftPad {
-    repeat zchar[4294967296] MetaDataX,
-    @tag(10)
-    match tag as falsey {
-        7 : BodyLength,
-        0 : i64_,
-    },
-    repeat char[255] A,
-    char[7] trueish @calculatedFrom(""a\\"") `two words`,
-    i16 Logon,
-}")).
-Eval vm_compute in ("<<<M66>>>" ++ check (runes_of_ascii "packet	int {// @lengthOf(
-repeat
-string
-    BodyLength
-    `a\`
-    , } packet repeatCount { @lengthOf( x_y_z ) crc ,
-    match Packet as
-Z9_{""// no comment"" :MetaDataX ,
-//	t
-// a // b
-[  00, 7]: chars ,""CRC32""
-    : zchar 42: stringy //	t
-, [ ""a\""b"",""1""// a // b
-] : u ,
-},
-@rightPad
-( ' ' )
-@lengthOf( i64_//x
-)
-    repeat
-f64
-x `two words`
-    , @calculatedFrom(""`tick`""	) int64 falsey @lengthOf(//x
-u128 ) , charz
-    {
-    //x
-    char[]
-    T
-// c
-// " ++ [27880; 37322]%N ++ runes_of_ascii "
-`a\` ,
-}
-,@lengthOf(
-    u8x)string_, repeat
-// " ++ [128512]%N ++ runes_of_ascii " emoji
-//	t
-x
-    , }
-")).
-Eval vm_compute in ("<<<M1511>>>" ++ check (runes_of_ascii "root packet Logon {
-    @calculatedFrom("""")
-    @lengthOf(int)
-    @tag(3)
-    match _x as i64_ {
-        10 : asx,
-        // `tick` ""quote"" 'q'
-        /// triple
-        """ ++ [128512]%N ++ runes_of_ascii """ : crc,
-        [0, 007] : float,
-        // trailing space 
-    },
-    repeat uint16 leftPad,
-}
-
-// " ++ [27880; 37322]%N ++ runes_of_ascii "
-packet charz {
-}
-
-MetaData int {
-    //
-    // trailing space 
-    zchar[4294967296] matchKey,
-    asx rootA `doc`,
-    Foo string_ `// not a comment`,
-    char[] u8x,// `tick` ""quote"" 'q'
-    roots float,
-}")).
-Eval vm_compute in ("<<<M1375>>>" ++ check (runes_of_ascii "options {
-    LittleEndian = true;
-    StringPrefixLenType = u64;
-    ArrayPrefixLenType = u16;
-    FixedStringPadFromLeft = false;
-    FixedStringPadChar = ' ';
-}
-packet Logon {
-    zchar[5] Side2,
-}
-root packet Logout {
-    repeat i64 Tail,
-    Logon,
-    repeat i16 OrderId,
-    char[] venue,
-    uint64 x,
-    repeat i16 count,
-    u8 Flags,
-    match Flags as Body {
-        25 : Logon,
-    },
-    u16 Qty @calculatedFrom(""CR\
-C32""),
-}
-")).
-Eval vm_compute in ("<<<M1640>>>" ++ check (runes_of_ascii "
-
-  packet
-
-    BodyLength {repeatCount// packet A { u8 x, }
-`// not a comment` ,
-	@lengthOf(	lengthOf )	@tag(65535 
-) 
-@rightPad 
-( 
-// @lengthOf(
-	  //	t
-'0'
-
-)	/// triple
-	  u8
-	Logon
-,
-} packet  chars
-	{ 
-o msg_type	, @tag(
-	10
-
-    )
-zchar[	65535]
-f32a
-
-    ,repeat char[]  i64_
-	`
-`
-
-    ,	} root  packet
-	f32a{
-    @tag(
-
-    255
-
-    ) 
-repeat u8
-
-    stringy 
-, 
-}
-
-")).
-Eval vm_compute in ("<<<M15>>>" ++ check (runes_of_ascii "MetaData // c
-u128{
-    }MetaData
-    a1 {
-}
-    root packet	o {	char[
-10 ]  stringy @lengthOf( Z9_) ,
-match
-x_y_z as stringy
-{	3
-: float ,
-    } , @leftPad //	t
-( ' '
-    ) u128 {	repeat i32 msg_type `crlf
-line` , x	, repeat char[	65535
-] T, match
-    A as
-i8i8 { """ ++ [128512]%N ++ runes_of_ascii """ : Logon
-, } //
-, } ,
-@rightPad (  '\x00') repeat x_y_z options1 `two words` , }
-")).
-Eval vm_compute in ("<<<M1191>>>" ++ check (runes_of_ascii "// top
-MetaData // c0
-uint8x // c1
-{ // c2
-char[] // c3
-f32a // c4
-`// not a comment` // c5
-, // c6
-float32 // c7
-roots // c8
-, // c9
-char[ // c10
-7 // c11
-] // c12
-u8x // c13
-, // c14
-zchar[ // c15
-10 // c16
-] // c17
-f32a // c18
-, // c19
-u64 // c20
-pack // c21
-, // c22
-u16 // c23
-pack // c24
-, // c25
-} // c26
-")).
-Eval vm_compute in ("<<<M215>>>" ++ check (runes_of_ascii "root	packet
-    i8i8 { @tag( // c
-4294967296 )
-    // packet A { u8 x, }
-    Header  calculatedFrom `
-`
-, @tag(4294967296 )
-@rightPad ( ' '
-    )
-@lengthOf( float )
-    options1 zchar `" ++ [233]%N ++ runes_of_ascii "`
-//x
-/// triple
-,}	root packet
-    // " ++ [128512]%N ++ runes_of_ascii " emoji
-    x {repeat
-zchar[  10 ]	x`u8 x,`,
-    }")).
-Eval vm_compute in ("<<<M242>>>" ++ check (runes_of_ascii "packet len{} options	{ Z9_ =  4294967296;
-_x =// a // b
-0
-    f32a = zchar[42	] ; } root packet
-    // @lengthOf(
-    BodyLength // trailing space 
-{ }options {
-string_ =u32	;	charz =
-/// triple
-// packet A { u8 x, }
-string
-; } packet len { }")).
-Eval vm_compute in ("<<<M364>>>" ++ check (runes_of_ascii "packet  _x
-{ repeat char[] matchKey// " ++ [128512]%N ++ runes_of_ascii " emoji
-, @leftPad( ) x_y_z/// triple
-T , Pad
-{ zchar[ 1] rootA `tab	here`
-,},Foo
-    @calculatedFrom(
-    """"
-    // trailing space 
-    ),
-}	packet MetaDataX {
-float64 body, }
-")).
-Eval vm_compute in ("<<<M265>>>" ++ check (runes_of_ascii "MetaData
-    zchar
-{
-uint8 _x
+Eval vm_compute in ("<<<M208>>>" ++ check (runes_of_ascii "packet // packet A { u8 x, }
+u8x {}root packet
+    matchKey{
+repeat zchar[ 0123456789 ] // packet A { u8 x, }
+int , char[
 // `tick` ""quote"" 'q'
-//
-`doc` ,
-    float64 metadata`doc` // " ++ [128512]%N ++ runes_of_ascii " emoji
-, zchar[ 42
-    ]
-// packet A { u8 x, }
-// c
-x_y_z , zchar[ 3 ]Logon `{ , }`
-, }
-
-")).
-Eval vm_compute in ("<<<M1802>>>" ++ check (runes_of_ascii "  packet
-
-    A 
-{
-
-match
-    k as
-n {[ 
-""a""  , ""bb""
-	,
-    ""c c"" , ""d""
+// a // b
+4294967296 ]
+asx `{ , }`
     ,
-    ""e""
-
-, 
-""f"" , ""g"" ,
-
-    ""h""
-
-, 
-""i""
-
+repeat i8i8, repeat Packet { repeat
+    leftPad {	f32 u128
+@lengthOf(As ), body`two words` ,// packet A { u8 x, }
+rootA Pad , } , char[ 00
+] msg_type `tab	here` // " ++ [128512]%N ++ runes_of_ascii " emoji
 ,
-""j""  ,	""k""
-    ]
-    :	B  2 
-:C}	, } ")).
-Eval vm_compute in ("<<<M461>>>" ++ check (runes_of_ascii "packet uint8x
+    repeat
+    //x
+    i64_ `doc` , zchar x_y_z ,}
+,
+}
+root
+packet int {
+repeat f32a {repeat f32a  asx
+`u8 x,` ,} ,@lengthOf(
+// @lengthOf(
+//	t
+msg_type// packet A { u8 x, }
+) body ,
+// c
+//
+Z9_ // c
+zchar `a\` //x
+, } //x")).
+Eval vm_compute in ("<<<M64>>>" ++ check (runes_of_ascii "
+MetaData //	t
+body { T
+    calculatedFrom, string f32a `line1
+line2`, leftPad BodyLength
+`tab	here` ,
+}options {
+}
+MetaData
+    options1	{
+char[ 3 ] MetaDataX
+// " ++ [128512]%N ++ runes_of_ascii " emoji
+/// triple
+`" ++ [28040; 24687; 31867; 22411]%N ++ runes_of_ascii "` ,  BodyLength x	`
+`,u16 tag	`say ""hi""`, u8
+float ,float32 As `
+`
+    ,
+    i8i8 Z9_ `
+`, } packet u { @tag( 42
+) options1 // c
+o `crlf
+line` ,@calculatedFrom( ""`tick`""
+// packet A { u8 x, }
+// a // b
+) repeat
+    char[]	a1
+    //x
+    ,	} options
+    { uint8x=
+true
+    A
+= // `tick` ""quote"" 'q'
+7 ; // packet A { u8 x, }
+len=	""" ++ [128512]%N ++ runes_of_ascii """
+    }")).
+Eval vm_compute in ("<<<M328>>>" ++ check (runes_of_ascii "
+packet
+Logon { repeatCount { BodyLength
+    `crlf
+line`, }
+    , zchar a1 `u8 x,`  ,
+match Foo as Foo { ""\n"" :i8i8,[
+""abc""
+    , // trailing space 
+""CRC32"" ]
+/// triple
+// " ++ [128512]%N ++ runes_of_ascii " emoji
+: // @lengthOf(
+crc
+    [ 3 ,
+//
+// " ++ [128512]%N ++ runes_of_ascii " emoji
+""x y"", 42 , ""`tick`""
+, 1 , ""a\""b"",
+    ""CRC32"" , 255 ]:repeatCount , [// " ++ [128512]%N ++ runes_of_ascii " emoji
+1
+// a // b
+// " ++ [27880; 37322]%N ++ runes_of_ascii "
+,007 ,
+""\n"",007 , 7 , ""// no comment"" ,
+255 ] :
+    uint8x 00
+: f32a , } ,
+    // a // b
+    uint16 Pad @lengthOf( uint8x)// packet A { u8 x, }
+`doc`  ,
+}")).
+Eval vm_compute in ("<<<M335>>>" ++ check (runes_of_ascii "//	t
+packet u8x  {
+u8x { body
+@calculatedFrom(	""`tick`"") `say ""hi""`
+,match a1	as
+    asx // c
+{
+    //	t
+    0
+    :
+// " ++ [27880; 37322]%N ++ runes_of_ascii "
+// @lengthOf(
+asx }
+    ,}
+, @rightPad ( )
+    match Logon as	x { [
+    00 , ""// no comment"" , ""a\\"",0123456789
+    // trailing space 
+    ,
+    4294967296 ] : crc , 00:options1 , // " ++ [27880; 37322]%N ++ runes_of_ascii "
+42
+    :i8i8,0 : o 0123456789
+: body , } ,@tag(
+7 )float
+    @lengthOf(
+stringy) `" ++ [233]%N ++ runes_of_ascii "`,
+u
+    // c
+    @lengthOf( msg_type )
+,
+    }")).
+Eval vm_compute in ("<<<M101>>>" ++ check (runes_of_ascii "MetaData T {  a1 Packet,// " ++ [128512]%N ++ runes_of_ascii " emoji
+uint8x
+// @lengthOf(
+//x
+Pad `" ++ [233]%N ++ runes_of_ascii "` , a1
+    // " ++ [27880; 37322]%N ++ runes_of_ascii "
+    MetaDataX ,	zchar[00]metadata`u8 x,` ,Pad// trailing space 
+x `
+` ,
+    i8
+u8x ,
+}  options { As =
+    false;}root packet options1 { @calculatedFrom( ""// no comment"" ) @lengthOf( _x	)
+    @tag(007 ) repeat
+// trailing space 
+// @lengthOf(
+f32 i8i8
+    `" ++ [233]%N ++ runes_of_ascii "` ,
+    @rightPad	( ' '// " ++ [27880; 37322]%N ++ runes_of_ascii "
+) repeat Pad , }
+")).
+Eval vm_compute in ("<<<M245>>>" ++ check (runes_of_ascii "MetaData float{ int16
+// c
+// " ++ [128512]%N ++ runes_of_ascii " emoji
+chars , int8 _x
+, char	charz ,
+Header  u8x
+    , u16 _x
+,
+    // @lengthOf(
+    x_y_z repeatCount ,}	packet Foo
+{ @tag(//	t
+1  )
+string Logon	`
+`
+, }//x
+options{ zchar =  ' ' trueish = //x
+""""
+    leftPad =255 ;
+}	root packet options1 {u64 packetx// `tick` ""quote"" 'q'
+@calculatedFrom(""// no comment""  ) ``,}
+")).
+Eval vm_compute in ("<<<M1713>>>" ++ check (runes_of_ascii "packet BodyLength {
+    repeatCount `// not a comment`,
+    @lengthOf(lengthOf)
+    @tag(65535)
+    @rightPad('0')
+    /// triple
+    u8 Logon,
+}
+
+packet chars {
+    o msg_type,
+    @tag(10)
+    zchar[65535] f32a,
+    repeat char[] i64_ `
+    `,
+}
+
+root packet f32a {
+    @tag(255)
+    repeat u8 stringy,
+}")).
+Eval vm_compute in ("<<<M222>>>" ++ check (runes_of_ascii "packet
+body// @lengthOf(
+{ @lengthOf(
+T
+    // " ++ [27880; 37322]%N ++ runes_of_ascii "
+    ) @lengthOf(
+int ) @leftPad ( '\x00')
+asx//x
+len
+,
+repeat	zchar[ 3] int `" ++ [28040; 24687; 31867; 22411]%N ++ runes_of_ascii "` ,@lengthOf(
+    // @lengthOf(
+    options1)match
+    x
+    as //x
+leftPad // @lengthOf(
+{
+7
+:
+x_y_z , 65535:  u128 , 42 : x ,} , //
+}")).
+Eval vm_compute in ("<<<M308>>>" ++ check (runes_of_ascii "options { pack// `tick` ""quote"" 'q'
+= 0123456789
+}
+packet metadata { @leftPad ( ' ' ) stringy
+@lengthOf( _x )
+    , repeat	u8
+int
+    `{ , }` ,
+@leftPad //	t
+('0' ) repeat char msg_type `it's`,
+} MetaData x_y_z { // trailing space 
+}")).
+Eval vm_compute in ("<<<M350>>>" ++ check (runes_of_ascii "MetaData Pad
+{ i64 Packet `{ , }`
+    , // `tick` ""quote"" 'q'
+repeatCount  trueish // packet A { u8 x, }
+`say ""hi""`	, f32 pack`// not a comment` ,// `tick` ""quote"" 'q'
+u32
+calculatedFrom ,char //	t
+zchar
+,}
+")).
+Eval vm_compute in ("<<<M1632>>>" ++ check (runes_of_ascii "options {
+    Z9_ = ""packet"";
+    float = false;
+    A = ' '
+}
+
+// c
+MetaData pack {
+    zchar[3] leftPad,
+    zchar falsey `it's`,
+    char[] repeatCount,
+    char[65535] Z9_,
+}
+//	t")).
+Eval vm_compute in ("<<<M1196>>>" ++ check (runes_of_ascii "// top
+packet // c0a
+  // c0b
+body
+    // c1
+{ i32 // c3
+f32a
+    // c4
+`{ , }` // c5a
+  // c5b
+, }
+    // c7
+options // c8a
+  // c8b
+{ // c9
+} // c10a
+  // c10b
+")).
+Eval vm_compute in ("<<<M1564>>>" ++ check (runes_of_ascii "packet A {
+    match k as n {
+        [
+            1, 22, 007, 4, 5,
+            66, 7, 8, 9, 10,
+            11, 12
+        ] : B,
+        2 : C,
+    },
+}")).
+Eval vm_compute in ("<<<M446>>>" ++ check (runes_of_ascii "packet uint8x
 { match pack
     as msg_type	{
     0123456789 :	float
-}
+} }
 ,
-} packet packet //	t
+} packet //	t
 a1
     { } options {packetx
     = '\x00'	; u128= ""a	b""  ; }
 ")).
-Eval vm_compute in ("<<<M523>>>" ++ check (runes_of_ascii "packet uint8x
+Eval vm_compute in ("<<<M1782>>>" ++ check (runes_of_ascii "
+
+  MetaData	leftPad
+{ chars  MetaDataX// c
+  , }	packet
+repeatCount
+    {
+char[ 
+255]
+uint8x  `" ++ [233]%N ++ runes_of_ascii "`
+    ,
+
+    }
+
+    MetaData pack
+{As Foo	,
+}
+
+")).
+Eval vm_compute in ("<<<M527>>>" ++ check (runes_of_ascii "packet uint8x
 { match pack
     as msg_type	{
     0123456789 :	float
@@ -903,305 +884,261 @@ Eval vm_compute in ("<<<M523>>>" ++ check (runes_of_ascii "packet uint8x
 } packet //	t
 a1
     { } options {packetx
-    = '\x00'	; u128= MetaData  ; }
+    = '\x00'	; u128= ""a	b""  } ;
 ")).
-Eval vm_compute in ("<<<M482>>>" ++ check (runes_of_ascii "packet uint8x
-{ match pack
-    as msg_type	{
-    0123456789 :	float
-}
+Eval vm_compute in ("<<<M1747>>>" ++ check (runes_of_ascii "
+packet
+
+A { match  k
+    as
+n  {
+[  ""a""
+	,  ""bb""
 ,
-} packet //	t
-a1
-    { } { options packetx
-    = '\x00'	; u128= ""a	b""  ; }
-")).
-Eval vm_compute in ("<<<M473>>>" ++ check (runes_of_ascii "packet uint8x
-{ match pack
-    as msg_type	{
-    0123456789 :	float
-}
+""c c"" ,
+    ""d""	,	""e""
+
 ,
-} packet //	t
-a1
-    ] } options {packetx
-    = '\x00'	; u128= ""a	b""  ; }
-")).
-Eval vm_compute in ("<<<M525>>>" ++ check (runes_of_ascii "packet uint8x
-{ match pack
-    as msg_type	{
-    0123456789 :	float
-}
+
+""f"" ,""g"" ,
+
+""h"" ,
+""i"",
+    ""j""
+    ,""k""]:
+B
+	,
+
+2
+	:C }
+
 ,
-} packet //	t
-a1
-    { } options {packetx
-    = '\x00'	; u128= ""a	b""   }
+
+    }
 ")).
-Eval vm_compute in ("<<<M520>>>" ++ check (runes_of_ascii "packet uint8x
-{ match pack
-    as msg_type	{
-    0123456789 :	float
-}
-,
-} packet //	t
-a1
-    { } options {packetx
-    = '\x00'	; u128=   ; }
-")).
-Eval vm_compute in ("<<<M648>>>" ++ check (runes_of_ascii "// @lengthOf(
-packet i8i8 { u128 o , }
-options { = MetaDataX true;
+Eval vm_compute in ("<<<M696>>>" ++ check (runes_of_ascii "// @lengthOf(
+packet i8i8 { u128 o , } }
+options { MetaDataX = true;
     BodyLength =""packet"" x_y_z= 007
 crc //x
 = ""abc"" ;
     msg_type =
 i16 }")).
-Eval vm_compute in ("<<<M646>>>" ++ check (runes_of_ascii "// @lengthOf(
+Eval vm_compute in ("<<<M720>>>" ++ check (runes_of_ascii "// @lengthOf(
 packet i8i8 { u128 o , }
 options { MetaDataX = true;
-    BodyLength =""packet"" x_y_z= 
+    BodyLength =""packet"" =x_y_z 007
 crc //x
 = ""abc"" ;
     msg_type =
 i16 }")).
-Eval vm_compute in ("<<<M16>>>" ++ check (runes_of_ascii "options { }MetaData u8x { uint8x	body`crlf
-line`
-    //	t
-    , calculatedFrom body ,
-}
-    options  {
-} root packet options1
-{  }")).
-Eval vm_compute in ("<<<M1583>>>" ++ check (runes_of_ascii "options {
-}
+Eval vm_compute in ("<<<M650>>>" ++ check (runes_of_ascii "// @lengthOf(
+packet i8i8 { u128 o , }
+options { MetaDataX = true;
+    BodyLength =""packet"" x_y_z= 007
+crc //x
+=  ;
+    msg_type =
+i16 }")).
+Eval vm_compute in ("<<<M1565>>>" ++ check (runes_of_ascii "MetaData
+leftPad
+{	chars
+MetaDataX, }	packet 
+repeatCount{ char[
 
-MetaData u8x {
-    uint8x body `crlf
-    line`,
-    calculatedFrom body,
-}
-
-options {
-}
-
-root packet options1 {
-}")).
-Eval vm_compute in ("<<<M1142>>>" ++ check (runes_of_ascii "
+    255 ] uint8x	`" ++ [233]%N ++ runes_of_ascii "`
+,  }
 // c
-MetaData leftPad { chars MetaDataX , } packet repeatCount { char[ 255 ] uint8x `" ++ [233]%N ++ runes_of_ascii "` , } MetaData pack { As Foo , }")).
-Eval vm_compute in ("<<<M1169>>>" ++ check (runes_of_ascii "MetaData leftPad { chars MetaDataX , } packet repeatCount { char[ 255 ] uint8x // c
-`" ++ [233]%N ++ runes_of_ascii "` , } MetaData pack { As Foo , }")).
-Eval vm_compute in ("<<<M499>>>" ++ check (runes_of_ascii "packet uint8x
+	  MetaData
+pack
+{ As
+
+Foo 
+, }
+")).
+Eval vm_compute in ("<<<M1529>>>" ++ check (runes_of_ascii "
+
+  packet
+u
+
+{ repeat 
+// " ++ [128512]%N ++ runes_of_ascii " emoji
+  A
+	,
+	@lengthOf( lengthOf)
+repeat
+	i64 
+i64_
+,//
+
+	zchar[
+3// a // b
+    ]
+body 
+, }")).
+Eval vm_compute in ("<<<M1143>>>" ++ check (runes_of_ascii "MetaData // c
+leftPad { chars MetaDataX , } packet repeatCount { char[ 255 ] uint8x `" ++ [233]%N ++ runes_of_ascii "` , } MetaData pack { As Foo , }")).
+Eval vm_compute in ("<<<M1175>>>" ++ check (runes_of_ascii "MetaData leftPad { chars MetaDataX , } packet repeatCount { char[ 255 ] uint8x `" ++ [233]%N ++ runes_of_ascii "` , } // c
+MetaData pack { As Foo , }")).
+Eval vm_compute in ("<<<M1643>>>" ++ check (runes_of_ascii "
+packet A
+{ u16 len @lengthOf(body ) 
+`tab
+	x`
+
+, u32	crc@calculatedFrom(""CRC32"")	`tab
+	x`
+,  string body
+,
+    }")).
+Eval vm_compute in ("<<<M901>>>" ++ check (runes_of_ascii "packet A {
+  match k as n {
+    [""a"", ""bb"", 007, ""d"", ""e"", 66, ""g"", ""h"", 9, ""j"", ""k""] : B,
+    2 : C
+  },
+}")).
+Eval vm_compute in ("<<<M888>>>" ++ check (runes_of_ascii "packet A {
+  match k as n {
+    [""a"", ""bb"", 007, ""d"", ""e"", 66, ""g"", ""h"", 9, ""j""] : B,
+    2 : C
+  },
+}")).
+Eval vm_compute in ("<<<M854>>>" ++ check (runes_of_ascii "packet A {
+  match k as n {
+    [""a"", ""bb"", ""c c"", ""d"", ""e"", ""f"", ""g"", ""h""] : B,
+    2 : C
+  },
+}")).
+Eval vm_compute in ("<<<M119>>>" ++ check (runes_of_ascii "packet u{ @tag(10 // a // b
+) tag  @lengthOf( A
+// " ++ [128512]%N ++ runes_of_ascii " emoji
+// a // b
+) , repeat options1 ,  }")).
+Eval vm_compute in ("<<<M623>>>" ++ check (runes_of_ascii "
+packet
+    asx {match u128 as lengthOf
+{
+//	t
+// `tick` ""quote"" 'q'
+255 : x ,
+    } ,	} }")).
+Eval vm_compute in ("<<<M594>>>" ++ check (runes_of_ascii "
+packet
+    asx {match u128 as lengthOf
+{
+//	t
+// `tick` ""quote"" 'q'
+: 255 x ,
+    } ,	}")).
+Eval vm_compute in ("<<<M1086>>>" ++ check (runes_of_ascii "packet A { match k as n // a
+ { // b
+ 1 // c
+ : // d
+ B // e
+ , // f
+ } // g
+ , // h
+ }")).
+Eval vm_compute in ("<<<M1610>>>" ++ check (runes_of_ascii "packet A {
+    match k as n {
+        [1, 22, ""c c"", 4] : B,
+        2 : C,
+    },
+}")).
+Eval vm_compute in ("<<<M1589>>>" ++ check (runes_of_ascii "options {
+    FixedStringPadFromLeft = true;
+}
+
+root packet P {
+    char[4] z,
+}")).
+Eval vm_compute in ("<<<M464>>>" ++ check (runes_of_ascii "packet uint8x
 { match pack
     as msg_type	{
     0123456789 :	float
 }
 ,
-} packet //	t
-a1
-    { } options {packetx")).
-Eval vm_compute in ("<<<M1468>>>" ++ check (runes_of_ascii "
-packet
-A
-	{
-	match  k
-    as
-	n{  [
-    1
-    ,
-22 
-,
-
-    007,
-    4	, 5
-    ] :B ,
-    2
-:C
-}  ,
-	}
-")).
-Eval vm_compute in ("<<<M1639>>>" ++ check (runes_of_ascii "
-packet
-
-A
-	{
-	match
-k
-	as	n 
-{	[1  ,
-
-    ""bb"",  007	,""d""
-
-    , 5 ]:
-
-    B
-    2
-
-:C
-}
-
-, }
-
-")).
-Eval vm_compute in ("<<<M583>>>" ++ check (runes_of_ascii "
-packet
-    asx {match u128 as lengthOf lengthOf
-{
-//	t
-// `tick` ""quote"" 'q'
-255 : x ,
-    } ,	}")).
-Eval vm_compute in ("<<<M1474>>>" ++ check (runes_of_ascii "
-
-  packet	metadata
-
-{u32 	 // `tick` ""quote"" 'q'
-
-  Packet	`say ""hi""`, 
-
-// trailing space 
-} ")).
-Eval vm_compute in ("<<<M563>>>" ++ check (runes_of_ascii "
-packet
-    asx { {match u128 as lengthOf
-{
-//	t
-// `tick` ""quote"" 'q'
-255 : x ,
-    } ,	}")).
-Eval vm_compute in ("<<<M281>>>" ++ check (runes_of_ascii "
-packet
-    o	{  }
-packet
-Pad {
-BodyLength // trailing space 
-, } packet metadata //x
-{}")).
-Eval vm_compute in ("<<<M1522>>>" ++ check (runes_of_ascii "
-
-  packet A {match  k
-as
-
-n
-{
-[
-
-    ""a"",
-22
-, ""c c"", 4
-, ""e"" ]
-	:B
-
-2 : C
-}
-,
-
-}
-
-")).
-Eval vm_compute in ("<<<M567>>>" ++ check (runes_of_ascii "
-packet
-    asx { u128 as lengthOf
-{
-//	t
-// `tick` ""quote"" 'q'
-255 : x ,
-    } ,	}")).
-Eval vm_compute in ("<<<M1494>>>" ++ check (runes_of_ascii "packet A {
-    match k as n {
-        [1, 22, ""c c""] : B,
-        2 : C,
-    },
 }")).
-Eval vm_compute in ("<<<M826>>>" ++ check (runes_of_ascii "packet A {
+Eval vm_compute in ("<<<M1762>>>" ++ check (runes_of_ascii "  options {  // " ++ [128512]%N ++ runes_of_ascii " emoji
+
+	Packet = // `tick` ""quote"" 'q'
+
+char[
+3 ]
+
+}
+")).
+Eval vm_compute in ("<<<M796>>>" ++ check (runes_of_ascii "packet A {
   match k as n {
-    [1, 22, 007, 4, 5, 66] : B,
+    [1, 22, ""c c""] : B
     2 : C
   },
 }")).
-Eval vm_compute in ("<<<M813>>>" ++ check (runes_of_ascii "packet A {
+Eval vm_compute in ("<<<M785>>>" ++ check (runes_of_ascii "packet A {
   match k as n {
-    [1, 22, 007, 4, 5] : B,
+    [""a"", 22] : B
     2 : C
   },
 }")).
-Eval vm_compute in ("<<<M1403>>>" ++ check (runes_of_ascii "  root  packet
-
-P	{
-repeat string
-ss  ,
-    repeat 
-u16 ns
-    , }
-")).
-Eval vm_compute in ("<<<M784>>>" ++ check (runes_of_ascii "packet A {
-  match k as n {
-    [""a"", 22] : B,
-    2 : C
-  },
+Eval vm_compute in ("<<<M1550>>>" ++ check (runes_of_ascii "root packet P {
+    repeat string ss,
+    repeat u16 ns,
 }")).
-Eval vm_compute in ("<<<M1509>>>" ++ check (runes_of_ascii "packet body {
-    // c
-    i32 f32a `{ , }`,
-}
+Eval vm_compute in ("<<<M1242>>>" ++ check (runes_of_ascii "root packet
+    P {
 
-options {
-}")).
-Eval vm_compute in ("<<<M1787>>>" ++ check (runes_of_ascii "
-
-  MetaData
-    M  { 
-u8	x	`a
-b`
+    char
+	c
+    , u8  x 
 ,
-    T 
-t	`a
-b`
 
-,}")).
-Eval vm_compute in ("<<<M1216>>>" ++ check (runes_of_ascii "packet body { i32 f32a `{ , }` , } options
-// c
-{ }")).
-Eval vm_compute in ("<<<M693>>>" ++ check (runes_of_ascii "// @lengthOf(
-packet i8i8 { u128 o , }
-options")).
-Eval vm_compute in ("<<<M1533>>>" ++ check (runes_of_ascii "packet	A{// a
-      u8
-x
-    ,
-
-    }
+}
+")).
+Eval vm_compute in ("<<<M181>>>" ++ check (runes_of_ascii "options{ packetx=// " ++ [27880; 37322]%N ++ runes_of_ascii "
+string Logon // " ++ [27880; 37322]%N ++ runes_of_ascii "
+=  int8}")).
+Eval vm_compute in ("<<<M1125>>>" ++ check (runes_of_ascii "// top
+MetaData // c0
+u // c1
+{ // c2
+} // c3
+")).
+Eval vm_compute in ("<<<M31>>>" ++ check (runes_of_ascii "options {
+x=
+""{,}""
+matchKey=  true	; }
 ")).
 Eval vm_compute in ("<<<M964>>>" ++ check (runes_of_ascii "root packet A {
     u8 x `tab
 	x`,
 }")).
-Eval vm_compute in ("<<<M1063>>>" ++ check (runes_of_ascii "packet A {
- u8 x `d x`, // c x
-}")).
-Eval vm_compute in ("<<<M1013>>>" ++ check (runes_of_ascii "packet A {
- u8 x `d" ++ [8232]%N ++ runes_of_ascii "`, // c" ++ [8232]%N ++ runes_of_ascii "
-}")).
-Eval vm_compute in ("<<<M1446>>>" ++ check (runes_of_ascii "
-
-  // c" ++ [8239]%N ++ runes_of_ascii "
-  	packet A{
+Eval vm_compute in ("<<<M1284>>>" ++ check (runes_of_ascii "root packet P {
+    string s,
 }
+")).
+Eval vm_compute in ("<<<M1028>>>" ++ check (runes_of_ascii "packet A {
+ u8 x `d" ++ [8287]%N ++ runes_of_ascii "`, // c" ++ [8287]%N ++ runes_of_ascii "
+}")).
+Eval vm_compute in ("<<<M1065>>>" ++ check (runes_of_ascii "packet A {
+}// a// b// c
+")).
+Eval vm_compute in ("<<<M1481>>>" ++ check (runes_of_ascii "
+packet
+	A	{	// a
 
-")).
-Eval vm_compute in ("<<<M1112>>>" ++ check (runes_of_ascii "MetaData tag { }
-// c
-")).
-Eval vm_compute in ("<<<M1136>>>" ++ check (runes_of_ascii "MetaData u { } // c
-")).
-Eval vm_compute in ("<<<M981>>>" ++ check (runes_of_ascii "packet A {
 }
-// c" ++ [12288]%N)).
-Eval vm_compute in ("<<<M1074>>>" ++ check (runes_of_ascii "MetaData M {
-}// c")).
-Eval vm_compute in ("<<<M1230>>>" ++ check (runes_of_ascii "packet x { // c
+")).
+Eval vm_compute in ("<<<M1526>>>" ++ check (runes_of_ascii "options {
+    // a
 }")).
-Eval vm_compute in ("<<<M1447>>>" ++ check (runes_of_ascii "packet x {
+Eval vm_compute in ("<<<M992>>>" ++ check (runes_of_ascii "// c" ++ [133]%N ++ runes_of_ascii "
+packet A {
 }")).
-Eval vm_compute in ("<<<M1025>>>" ++ check (runes_of_ascii "// c" ++ [8287]%N)).
+Eval vm_compute in ("<<<M1465>>>" ++ check (runes_of_ascii "MetaData roots {
+}")).
+Eval vm_compute in ("<<<M1650>>>" ++ check (runes_of_ascii "root packet A {
+}")).
+Eval vm_compute in ("<<<M376>>>" ++ check (runes_of_ascii "
+// " ++ [128512]%N ++ runes_of_ascii " emoji
+")).
+Eval vm_compute in ("<<<M1020>>>" ++ check (runes_of_ascii "// c" ++ [8239]%N)).
